@@ -26,6 +26,7 @@ var checks = map[string]entry{
 	"C09": {"model_checking", props.C09},
 	"C10": {"model_checking", props.C10},
 	"C13": {"model_checking", props.C13},
+	"C14": {"model_checking", props.C14},
 	"C15": {"fault_enumeration", props.C15},
 }
 
